@@ -248,6 +248,38 @@ class Chk:
                 if isinstance(p, Fiber):
                     todo.append((p, lvl + 1, c))
 
+    def ctor_checks(self):
+        """fromUncompressed (the nest's dimensions are the authoritative shape,
+        pinned by test_tensor_shape.py) and Tensor(rank_ids=, shape=, default=)."""
+        def nest(dims, prefix=()):
+            if len(dims) == 1:
+                return [self.C.get(prefix + (i,), self.dflt) for i in range(dims[0])]
+            return [nest(dims[1:], prefix + (i,)) for i in range(dims[0])]
+        for fam, fn, eshape in (
+                ("fromUncompressed", lambda: Tensor.fromUncompressed(list(self.ids), nest(self.dims), default=self.dflt),
+                 list(self.dims)),
+                ("Tensor()", lambda: Tensor(rank_ids=list(self.ids), shape=self.shape, default=self.dflt), self.shape)):
+            t = self.call(fam, fn)
+            if t is None:
+                continue
+            try:
+                if t.getRankIds() != self.ids:
+                    self.V(fam, "rank-ids", set(), self.ids, t.getRankIds())
+                if eshape is not None and t.getShape(authoritative=True) != eshape:
+                    self.V(fam, "shape", set(), eshape, t.getShape(authoritative=True))
+                if unbox(t.getDefault()) != self.dflt:
+                    self.V(fam, "default", set(), self.dflt, unbox(t.getDefault()))
+                if any(t.getFormat(r) != "C" for r in self.ids):
+                    self.V(fam, "format", set(), "C", [t.getFormat(r) for r in self.ids])
+                saved, self.smode = self.smode, "declared"
+                try:
+                    self.contain(fam, set(), t)
+                finally:
+                    self.smode = saved
+            except (Exception, SystemExit) as ex:
+                self.V(fam, "exception-in-getter:" + type(ex).__name__, {"site:" + core.exc_site(ex)},
+                       None, core.tb_tail(ex))
+
     def est(self, lvl):
         """Extent of rank lvl as the operand reports it: the declared shape or
         the estimate max stored coordinate + 1 (0 without elements)."""
@@ -362,9 +394,10 @@ def g_update(k):
     r = k.call("updatePayloads", lambda: k.fresh().updatePayloads(lambda i, c, p: p, depth=D - 1))
     if r is not None:
         k.check("updatePayloads", set(), r, exp)
-    # the constructor result itself
+    # constructor results
     k.par = ""
     k.check("fromFiber", set(), k.fresh(), exp)
+    k.ctor_checks()
 
 
 GROUPS = ("swizzle", "flatten", "merge", "split", "update")
